@@ -76,6 +76,17 @@ type TypeDecl struct {
 	Invs      []Clause
 	Immutable []string
 	Stable    []string // not changed by other threads once the object is shared (assumption; writes restricted)
+	ValsNonnil []string // containers (maps, slices) in these fields hold no nil values
+	Writers    []WritersDecl
+}
+
+// WritersDecl: only the listed functions may store to the field of an existing object.
+type WritersDecl struct {
+	Field string
+	Funcs []string
+	Props []string
+	File  string
+	Line  int
 }
 
 type Axiom struct {
@@ -258,6 +269,29 @@ func (cs *Contracts) LoadFile(path string) {
 				for _, f := range strings.Split(parts[2], ",") {
 					td.Immutable = append(td.Immutable, strings.TrimSpace(f))
 				}
+			case "vals-nonnil":
+				for _, f := range strings.Split(parts[2], ",") {
+					td.ValsNonnil = append(td.ValsNonnil, strings.TrimSpace(f))
+				}
+			case "writers":
+				// writers <field>: f1, f2 | C10 C02
+				spec := parts[2]
+				props := ""
+				if i := strings.Index(spec, "|"); i >= 0 {
+					props, spec = strings.TrimSpace(spec[i+1:]), strings.TrimSpace(spec[:i])
+				}
+				ff := strings.SplitN(spec, ":", 2)
+				if len(ff) != 2 {
+					cs.errf(path, ln, "bad writers clause %q", rest)
+					continue
+				}
+				wd := WritersDecl{Field: strings.TrimSpace(ff[0]), Props: strings.Fields(props), File: path, Line: ln}
+				for _, f := range strings.Split(ff[1], ",") {
+					if strings.TrimSpace(f) != "" {
+						wd.Funcs = append(wd.Funcs, qualify(pkg, strings.TrimSpace(f)))
+					}
+				}
+				td.Writers = append(td.Writers, wd)
 			case "stable":
 				for _, f := range strings.Split(parts[2], ",") {
 					td.Stable = append(td.Stable, strings.TrimSpace(f))
